@@ -198,7 +198,7 @@ func c12Profile(r *Rng, wrapIDs bool) *profile.Profile {
 			m.HasFunctions = true
 		}
 		if r.P(1, 12) {
-			m.Start = PickU(r, []uint64{0, 1 << 63, 1<<63 - 0x1000, math.MaxUint64 - 0xffff, 0x1000})
+			m.Start = c12PickU(r, []uint64{0, 1 << 63, 1<<63 - 0x1000, math.MaxUint64 - 0xffff, 0x1000})
 			m.Limit = m.Start + 0x10000
 		}
 	}
@@ -229,7 +229,7 @@ func c12Profile(r *Rng, wrapIDs bool) *profile.Profile {
 	return p
 }
 
-func PickU(r *Rng, l []uint64) uint64 { return l[r.Intn(len(l))] }
+func c12PickU(r *Rng, l []uint64) uint64 { return l[r.Intn(len(l))] }
 
 func c12Frame(r *Rng) plugin.Frame {
 	return plugin.Frame{Func: PickS(r, c12SysNames), File: PickS(r, c12SrcFiles),
@@ -271,7 +271,7 @@ func c12Sources_(r *Rng, p *profile.Profile) plugin.MappingSources {
 				case 2:
 					st = m.Start - 0x1000
 				case 3:
-					st = PickU(r, []uint64{1 << 63, math.MaxUint64, 1<<63 - 1, 1})
+					st = c12PickU(r, []uint64{1 << 63, math.MaxUint64, 1<<63 - 1, 1})
 				}
 				l = append(l, c12Source{PickS(r, c12Sources), st})
 			}
@@ -547,10 +547,10 @@ func runC12(c *Ctx) {
 	for k := 0; k < c.Budget(200, 4000); k++ {
 		a, o := r.U64()>>uint(r.Intn(64)), r.I64()>>uint(r.Intn(64))
 		if r.P(1, 3) {
-			a = PickU(r, ext) + uint64(r.Intn(5)) - 2
+			a = c12PickU(r, ext) + uint64(r.Intn(5)) - 2
 		}
 		if r.P(1, 3) {
-			o = int64(PickU(r, ext)) + int64(r.Intn(5)) - 2
+			o = int64(c12PickU(r, ext)) + int64(r.Intn(5)) - 2
 		}
 		if r.P(1, 4) {
 			o = -int64(a) + int64(r.Intn(5)) - 2
